@@ -27,7 +27,14 @@ F32Toks == IntToks \cup {"NaN", "inf", "-inf", "1e39", "1e-46", "1."}
 MetaToks == {"#META CTE_AREAREF: 10", "#META CTE_FUENTE: x"}
 HashToks == {"#"} \cup MetaToks
 Others == {"", "abc", "<NA>", "vector", "<FF>"}
-Universe == CTypes \cup ServicesT \cup CarriersT \cup SourcesT \cup F32Toks \cup HashToks \cup Others
+\* tokens of factor files
+FSourcesT == {"RED", "INSITU", "COGEN"}
+FDestsT == {"SUMINISTRO", "A_RED", "A_NEPB"}
+FStepsT == {"A", "B"}
+DecToks == {"0.5", "2.0", "0.4", "0.0", "1.1", "0.2", "0.1", "0.3", "2.2"}
+NumToks == F32Toks \cup DecToks
+Universe == CTypes \cup ServicesT \cup CarriersT \cup SourcesT \cup NumToks \cup HashToks \cup Others
+            \cup FSourcesT \cup FDestsT \cup FStepsT
 
 \* the fields of a line that are left after the comment is cut (the field holding '#' keeps its empty prefix)
 RECURSIVE CutComment(_)
@@ -36,7 +43,7 @@ CutComment(fs) ==
   ELSE IF Head(fs) \in HashToks THEN <<"">>
   ELSE <<Head(fs)>> \o CutComment(Tail(fs))
 
-AllF32(q) == \A i \in 1..Len(q) : q[i] \in F32Toks
+AllF32(q) == \A i \in 1..Len(q) : q[i] \in NumToks
 From(q, k) == SubSeq(q, k, Len(q))
 
 \* one data line: number of values if it is read, -1 if refused; kind returned to check equal lengths
@@ -75,4 +82,22 @@ ParseClass(file) ==
        IN IF \E i \in data : lens[i] < 0 THEN "ParseError"
           ELSE IF \E i, j \in energy : lens[i] # lens[j] THEN "ParseError"
           ELSE "Parsed"
+
+(***************************************************************************)
+(* The grammar of a factors file (FromStr of Factors and Factor,           *)
+(* src/wfactors.rs:562-581, src/types/factor.rs:119-153): blank lines,     *)
+(* remark lines and a header line starting with "vector," are skipped,     *)
+(* metadata lines are read, every other line needs at least seven fields   *)
+(* before its comment - carrier, source, destination, step and three       *)
+(* numbers; further fields are ignored.                                    *)
+(***************************************************************************)
+FactorLineOk(fs) ==
+  LET it == CutComment(fs) IN
+  /\ Len(it) >= 7
+  /\ it[1] \in CarriersT /\ it[2] \in FSourcesT /\ it[3] \in FDestsT /\ it[4] \in FStepsT
+  /\ it[5] \in NumToks /\ it[6] \in NumToks /\ it[7] \in NumToks
+FactorsParseClass(file) ==
+  IF ~Known(file) THEN "Unknown"
+  ELSE LET data == {i \in 1..Len(file) : ~IsSkipped(file[i])} IN
+       IF \E i \in data : ~FactorLineOk(file[i]) THEN "ParseError" ELSE "Parsed"
 =============================================================================
